@@ -167,6 +167,24 @@ def _identifier_membership_observed(prog, kw):
                 if (getattr(tok, "type", None), getattr(tok, "value", None)) != want:
                     bad.append(f"`{v}` gives <{getattr(tok, 'type', None)} {getattr(tok, 'value', None)!r}>, expected <{want[0]} {want[1]!r}>")
                     break
+        # ... and no spelling leaves a trace in the lexer: after reading a mentioned spelling the lexer's state is what it is
+        # after an ordinary name of the same length (a flag set on a particular name changes how the rest of the line is read)
+        def state_after(name):
+            sim = LexerSim(prog, name + " ;")
+            sim.call("parse_identifier")
+            return {k: repr(v) for k, v in sim.me.__dict__.items() if k not in ("parsers", "file")}
+        for v in sorted(mentioned):
+            if not (v[0].isalpha() or v[0] == "_") or v in kw:
+                continue
+            neutral = ("z" if v[0].islower() or v[0] == "_" else "Z") + "".join("z" if c.islower() else "Z" if c.isupper() else c for c in v[1:])
+            if neutral in mentioned or neutral in kw:
+                continue
+            a, b = state_after(v), state_after(neutral)
+            if a != b:
+                diff = sorted(k for k in set(a) | set(b) if a.get(k) != b.get(k))
+                bad.append(f"after the identifier `{v}` the lexer's state differs from its state after `{neutral}` in {diff[:3]}: "
+                           f"the rest of the input is read differently because of a name")
+                break
     except Unsupported as e:
         return None, str(e)
     return (not bad), "; ".join(bad[:3])
